@@ -36,6 +36,11 @@ fn main() {
         let u2 = spec2.universe();
         ctx.run_slice(Slice::new(format!("forget-terms-2-edges[{}]", spec2.name()), u2.count().min(600_000), |i, loc| check_forget_term(&u2.get(i), loc)));
     }
+    // larger programs and terms, as parametrised families
+    let sp = structured_programs(if quick { 6 } else { 9 });
+    ctx.run_slice(Slice::new(format!("structured-programs[{} programs: chains, folds over up to 7-10 inputs, a variable used many times, wide operations]", sp.len()), sp.len() as u64, |i, loc| check_program::<B>(&sp[i as usize], loc)));
+    let sf = structured_forget_terms();
+    ctx.run_slice(Slice::new(format!("forget-terms-wide-variables[{} terms: variable hyperedges of arity <=3 x <=3, every labelling]", sf.len()), sf.len() as u64, |i, loc| check_forget_term(&sf[i as usize], loc)));
     let meta = Meta {
         rule: "programs: every expression program with <=2 Var::new (anywhere in the sequence), up to 1 application over every operator overload the crate defines (^ & | << >> + * - / ! unary-) plus operation (m->n) and fn_operation (n->1), up to 2 applications (quick: one declared variable; thorough: two, and 3 applications with one) over a reduced operator set, arbitrary sharing (clones), source and target lists of length <=2 (repeats and bare inputs included); the test signature makes the operation label and the result type depend on BOTH operand types; the built term must be isomorphic to the reference term (one hyperedge per application, one variable hyperedge per variable, fresh node per use/definition, interfaces in order); a family with a handle leaked out of the closure must get the shared state back; forget / forget_monogamous: on every Var-built term and on every label-consistent lax term of the universe (variable hyperedges of arity 0..2 x 0..2, any mix of incident labels, pending unification) the result must be isomorphic to the reference rewrite, keep the type, and (Var-built, single-definition programs) evaluate by the real evaluator to the value of the expression on all inputs over {1,2,3}".into(),
         bounds: "<=2 declared variables, <=1-3 applications, interface lists <=2; lax terms: <=3 nodes, <=1 (quick) / 2 hyperedges of arity <=2+2, <=1 pending pair (quick adds a 2-node / 2-edge slice)".into(),
